@@ -140,6 +140,7 @@ def viscous_length_scaling(env, k_lam, symmetry):
 
 @job("c06.translation", ("C06",), cfgs=[dict(nx=2, ny=3, symmetry=False, nsurf=1, yshift=3.0, rotational=False, dict_shift=-6.0),   # a full-span surface moved across the centre line (the model is rebuilt from the moved mesh)
                                          dict(CF[0], rotational=False), dict(CF[0], rotational=True), dict(CF[2], rotational=True),
+                                         dict(nx=2, ny=2, symmetry=True, side="left", nsurf=1, groundplane=True, rotational=False),   # ground effect on
                                          dict(CF[1], rotational=True, _tier=T)], ranges=RG, cost=8)
 def translation(env, rotational, dict_shift=None, **cfg):
     """translating all surfaces and the moment reference point together changes nothing (x, z translations when a
@@ -166,17 +167,37 @@ def translation(env, rotational, dict_shift=None, **cfg):
         nm = "%s_def_mesh" % s["name"]
         g2[nm] = given[nm] + t.reshape(1, 1, 3)
     g2["cg"] = given["cg"] + t
+    gp = " (ground plane left in place)" if cfg.get("groundplane") else ""
     if env.sym:
         v2 = g_moved.run(g2, hints={"solve_matrix": solve_hint(solves1, 1)})
-        check_solve_relation(env, "C06", "translation", g_moved, solves1, 1)
+        check_solve_relation(env, "C06", "translation" + gp, g_moved, solves1, 1)
     else:
         v2 = g_moved.run(g2)
     for s in surfs:
         n = s["name"]
-        env.eq("C06", "sectional forces unchanged by a common translation of surfaces and reference point [%s]" % n,
+        env.eq("C06", "sectional forces unchanged by a common translation of surfaces and reference point%s [%s]" % (gp, n),
                g_moved.get(v2, "ap.aero_states.%s_sec_forces" % n), g.get(v1, "ap.aero_states.%s_sec_forces" % n))
     for q in ("CL", "CD", "CM"):
-        env.eq("C06", "aircraft %s unchanged by a common translation" % q, g_moved.get(v2, "ap." + q), g.get(v1, "ap." + q))
+        env.eq("C06", "aircraft %s unchanged by a common translation%s" % (q, gp), g_moved.get(v2, "ap." + q), g.get(v1, "ap." + q))
+    if cfg.get("groundplane"):
+        # the ground plane {p : p . n == height_agl}, n = (sin alpha, 0, -cos alpha), is anchored to the coordinate origin: with the
+        # ground carried along (height_agl + t . n) the law holds exactly
+        xp = env.xp
+        a = given["alpha"].reshape(-1)[0] * (env.pi / 180 if env.sym else np.pi / 180)
+        g3 = dict(g2)
+        g3["height_agl"] = given["height_agl"] + t[0] * xp.sin(a) - t[2] * xp.cos(a)
+        if env.sym:
+            v3 = g.run(g3, hints={"solve_matrix": solve_hint(solves1, 1)})
+            check_solve_relation(env, "C06", "translation, ground carried along", g, solves1, 1)
+        else:
+            v3 = g.run(g3)
+        for s in surfs:
+            n = s["name"]
+            env.eq("C06", "ground effect: sectional forces unchanged by a common translation of surfaces, reference point and ground plane [%s]" % n,
+                   g.get(v3, "ap.aero_states.%s_sec_forces" % n), g.get(v1, "ap.aero_states.%s_sec_forces" % n))
+        for q in ("CL", "CD", "CM"):
+            env.eq("C06", "ground effect: aircraft %s unchanged by a common translation that carries the ground plane along" % q,
+                   g.get(v3, "ap." + q), g.get(v1, "ap." + q))
 
 
 @job("c06.length_scaling", ("C06",), cfgs=[dict(nx=2, ny=2, symmetry=True, side="left", nsurf=1),
